@@ -13,8 +13,8 @@ TECH = {
  "C09": "static analysis: exhaustive Boolean evaluation of every constructor's attach guard, slot gating, flag-writer inventory and stop/restore pairing",
  "C10": "static analysis: engine-state layering (who touches counters/deltas/gradients), take-only delta reads, additive accumulate arms",
  "C11": "static analysis: single invocation site of the derivative closure and control dependence of counting/recursion on the shared consumer counter",
- "C12": "static analysis: field-by-field provenance of Clone, children-by-clone at every attachment site, destructor scan, equality field set",
- "C13": "static analysis: dataflow of the value stored over each parameter in Optimizer::update (fresh constructor, same dimensions, tracked)",
+ "C12": "static analysis: field-by-field provenance of Clone, MIR scan for re-seated shared slots, children-by-clone at every attachment site, destructor scan, equality field set",
+ "C13": "static analysis: dataflow of the value stored over each parameter in Optimizer::update (fresh constructor, same dimensions, tracked) and order/subset agreement of its producer and consumer traversals",
  "C16": "static analysis: constructor funnel + dominating assertions, no later write (MIR), equality reads exactly dimensions and values",
  "C17": "static analysis: linearity type system (Z/L/C/N) over backward closures and the engine's delta path; default-seed provenance",
  "C18": "static analysis: ownership-edge inventory over ADT field types, MIR writers of the edge list, closure captures, retained slots",
